@@ -20,24 +20,30 @@ def direct_blocks(content, chunks, bs):
     return out + [b"<no-end>"]
 
 
-def transfer_blocks(content, chunks, bs):
-    """through the real _TftpReadRequest with a client that acknowledges everything"""
+def transfer_blocks(c):
+    """through the real _TftpReadRequest with a client that acknowledges everything;
+    returns (blocks, tsize_announced)"""
+    import tftp_common as T
+    content, bs = c["content"], c["bs"]
+    options = list(c.get("options", []))
+    if bs != 512 and not any(k.lower() == "blksize" for k, _ in options):
+        options.append(("blksize", str(bs)))
     nblocks = 2 * len(content) // bs + 2
-    script = [(1, fake_net.CLI, b"\x00\x04" + struct.pack("!H", 0))] if bs != 512 else []
-    script += [(2 + i, fake_net.CLI, b"\x00\x04" + struct.pack("!H", (i + 1) & 0xFFFF)) for i in range(nblocks)]
-    log = fake_net.run_transfer(script, lambda *a: fake_net.ChunkedStream(content, chunks),
-                                {"blksize": str(bs)} if bs != 512 else {}, mode="netascii", default_timeout=4096)
+    tc = T.mk_case(content, c["chunks"], netascii=True, options=options, default_tmo=4096, kind=c.get("kind", ("noreg",)),
+                   events=[(1 + i, 0, T.ack(i & 0xFFFF)) for i in range(nblocks + 1)])
+    log = T.run_impl(tc)
     out = []
+    tsize = False
     last = None
     for e in log:
-        if e[0] == "send" and e[2] == fake_net.CLI and e[3][:2] == b"\x00\x03":
+        if e[0] == 1 and e[2] == 0 and e[3][0] == 3:
             if e[3] != last:
-                out.append(e[3][4:])
+                out.append(e[3][2])
             last = e[3]
-        elif e[0] == "send" and e[3][:2] == b"\x00\x06":
-            if b"tsize" in e[3].lower():
-                out.append(b"<tsize announced>")
-    return out
+        elif e[0] == 1 and e[3][0] == 6:
+            if any(k.lower() == b"tsize" for k, _ in e[3][1]):
+                tsize = True
+    return out, tsize
 
 
 class C08(Check):
@@ -45,7 +51,8 @@ class C08(Check):
     technique = "Coq proof (streaming lemma over any chunking/block size) + differential correspondence"
     rule = ("case = (content over {CR,LF,a,b}, chunking of the source reads, block size); exhaustive over lengths "
             "<= L with every composition as chunking for bs in 1..3 (direct reader) and bs=8 (real transfer), plus "
-            "seeded random binary inputs; non-trivial = content contains CR or LF and chunking has >= 2 reads; "
+            "seeded random binary inputs; tsize requests (3 spellings x 3 values x 6 stream kinds) in netascii mode; "
+            "non-trivial = content contains CR or LF and chunking has >= 2 reads, or a tsize request; "
             "distinct by (content, chunking, bs)")
     assumptions = ["file.read(n) returns 1..n bytes while data remains and b'' only at EOF"]
 
@@ -75,25 +82,44 @@ class C08(Check):
             content = bytes(rng.choice([13, 10, rng.randrange(256)]) for _ in range(n))
             ch = [rng.randrange(1, 700) for _ in range(rng.randrange(0, 40))]
             yield {"content": content, "chunks": ch, "bs": rng.choice([512, 1428]), "via": "transfer"}
+        # a transfer size must never be announced in netascii mode: every stream kind x option spellings
+        for kind in (("bytesio", 0), ("bytesio", 3), ("file", 0), ("file", 2), ("pipe",), ("noreg",)):
+            for name in ("tsize", "TSIZE", "tSize"):
+                for val in ("0", "1", "00"):
+                    for extra in ((), (("blksize", "16"),), (("timeout", "3"),)):
+                        n = rng.randrange(0, 60)
+                        content = bytes(rng.choice([13, 10, 97, 98]) for _ in range(n))
+                        opts = [(name, val)] + list(extra)
+                        if rng.random() < 0.5:
+                            opts.reverse()
+                        yield {"content": content, "chunks": [], "bs": 16 if extra and extra[0][0] == "blksize" else 512,
+                               "via": "transfer", "options": opts, "kind": kind}
 
     def impl(self, c):
         if c["via"] == "reader":
-            return direct_blocks(c["content"], c["chunks"], c["bs"])
-        return transfer_blocks(c["content"], c["chunks"], c["bs"])
+            return (direct_blocks(c["content"], c["chunks"], c["bs"]), False)
+        return transfer_blocks(c)
 
     def line(self, c, obs):
-        return sx([c["content"], c["chunks"], c["bs"], 0, obs])
+        import tftp_common as T
+        kind = c.get("kind", ("noreg",))
+        ksx = T.kind_sx({"kind": kind, "content": c["content"]})
+        opts = [[a, b] for a, b in c.get("options", [])]
+        return sx([c["content"], c["chunks"], c["bs"], 0, opts, [65464, 30, 4096], ksx, [obs[0], obs[1]]])
 
     def canon(self, obs):
-        return [bytes(b) for b in obs]
+        return [[bytes(b) for b in obs[0]], 1 if obs[1] else 0]
 
     def nontrivial(self, c, obs):
         if (b"\r" in c["content"] or b"\n" in c["content"]) and len(c["chunks"]) >= 2:
             return (c["content"], tuple(c["chunks"]), c["bs"], c["via"])
+        if c.get("options"):
+            return (c["content"], tuple(c["options"]), c.get("kind"))
         return None
 
     def show(self, c):
-        return {"content": c["content"].hex(), "chunks": c["chunks"], "bs": c["bs"], "via": c["via"]}
+        return {"content": c["content"].hex(), "chunks": c["chunks"], "bs": c["bs"], "via": c["via"],
+                "options": c.get("options", []), "kind": c.get("kind", ("noreg",))}
 
     def shrink(self, c):
         ct, ch = c["content"], c["chunks"]
